@@ -71,7 +71,7 @@ def check_trim(db, chk, rule: str) -> None:
                 if t == T.col(TR, "correlation"):
                     return vals[1]
                 if t == T.col(TR, "name"):
-                    return 5
+                    return vals[2] if len(vals) > 2 else 5
                 if t[0] == "call" and str(t[1]).endswith(".get"):
                     return 1001 if "Event" in T.show(t) else 1002
                 raise T.Unknown(t)
@@ -105,6 +105,14 @@ def check_trim(db, chk, rule: str) -> None:
         chk.ob(rule, f"{tag} kept device rows = device-side rows inner-joined on the correlation ids of the KEPT host rows", okj, where2,
                found=[how, T.show(lk), T._ctx(Rc)[:160]], accepted="inner join on correlation with the kept host rows",
                why="a left join keeps every activity; joining on all host rows keeps the trailing step's activities")
+        try:
+            grid = [(sv_, cv_, nv_) for sv_ in (-1, 0, 7) for cv_ in (-1, 0, 9) for nv_ in (5, 1001, 1002)]
+            both = [g for g in grid if bool(T.evaluate(T.and_(*side), leaf(g))) == bool(T.evaluate(Lc[1], leaf(g)))]
+            chk.ob(rule, f"{tag} host side and device side of the trim are complementary on the {len(grid)} abstract rows (stream x correlation x {{plain, Event Sync, Context Sync}})", not both, where2,
+                   found=[f"stream={g[0]} corr={g[1]} name={'plain' if g[2] == 5 else 'sync'}: on {'both' if bool(T.evaluate(Lc[1], leaf(g))) else 'neither'} side(s)" for g in both][:6], accepted="every row on exactly one side",
+                   why="a row on neither side vanishes from the loaded trace while its partner keeps a link to it; a row on both sides is duplicated")
+        except T.Unknown as u:
+            chk.ob(rule, f"{tag} side predicates understood", None, where2, found=T.show(u.args[0])[:120])
         try:
             dvv = {(-1, 9): bool(T.evaluate(Lc[1], leaf((-1, 9)))), (7, 9): bool(T.evaluate(Lc[1], leaf((7, 9))))}
             chk.ob(rule, f"{tag} device part is taken from the device-side rows", dvv == {(-1, 9): False, (7, 9): True} and Lc[0] == TR, where2, found={str(k): v for k, v in dvv.items()},
